@@ -52,17 +52,29 @@ package iterator
 //@   modifies nothing
 //@ trusted func (s *Service) newGateway(cfg Config, generateSeqNums bool) (seg confluence.Segment[Request, Response], err error)
 //@   modifies nothing
+//@ # ghost: 1 while peer streams opened by an open in progress (or owned by an iterator) are open, 0
+//@ # once they have been closed; a failed open must leave it at 0
+//@ ghost SpecPeersOpen *int
 //@ trusted func (s *Service) openPeerClient(ctx context.Context, target address.Address, cfg Config) (c ClientStream, err error)
-//@   modifies nothing
+//@   ensures err == nil ==> *SpecPeersOpen == 1
+//@   ensures err != nil ==> *SpecPeersOpen == old(*SpecPeersOpen)
+//@   modifies SpecPeersOpen
 //@ trusted func (s *Service) closePeerClients(senders []freighter.StreamSenderCloser[Request], originalErr error) (err error)
 //@   ensures originalErr != nil ==> err != nil
-//@   modifies nothing
+//@   ensures *SpecPeersOpen == 0
+//@   modifies SpecPeersOpen
 
 //@ # one receiver is opened per peer leaseholder
 //@ func (s *Service) openManyPeers(ctx context.Context, bounds telem.TimeRange, chunkSize int64, targets map[node.Key][]channel.Key, generateSeqNums bool) (sender *peerSender, receivers []*freightfluence.Receiver[Response], err error)
 //@   ensures err == nil ==> len(receivers) == len(targets)
+//@   requires *SpecPeersOpen == 0
+//@   ensures err != nil ==> *SpecPeersOpen == 0
+//@   ensures err == nil && len(targets) > 0 ==> *SpecPeersOpen == 1 && sender != nil && len(sender.Senders) > 0
+//@   ensures err == nil && len(targets) == 0 ==> *SpecPeersOpen == 0
+//@   modifies SpecPeersOpen
 //@   loop 0 invariant len(receivers) == __rc(0) && sender != nil
-//@   loop 0 modifies sender
+//@   loop 0 invariant (__rc(0) > 0 ==> *SpecPeersOpen == 1 && len(sender.Senders) > 0) && (__rc(0) == 0 ==> *SpecPeersOpen == 0)
+//@   loop 0 modifies sender, SpecPeersOpen
 
 //@ # The synchronizer forwards an acknowledgement once it has seen nodeCount of them: NewStream must
 //@ # size it with the number of response sources it routes into it - one receiver per peer
@@ -70,6 +82,10 @@ package iterator
 //@ func (s *Service) NewStream(ctx context.Context, cfg Config) (it StreamIterator, err error)
 //@   pragma from HostKey()
 //@   pragma abstract UniqueLeaseholders NewKey
+//@   # a failed open leaves no peer stream open
+//@   requires *SpecPeersOpen == 0
+//@   ensures  err != nil ==> *SpecPeersOpen == 0
+//@   modifies SpecPeersOpen
 //@   # ASSUMPTION (set cardinality, not proved): the distinct leaseholders of the keys are the peer
 //@   # buckets plus the host if it leases a key (free channels are refused by validateChannelKeys)
 //@   assume_after "HostKey()" len(cfg.Keys.UniqueLeaseholders()) == len(batch.Peers) + __ite(needGatewayRouting, 1, 0)
